@@ -342,7 +342,7 @@ class Run(object):
         elif name == 'selfreplace':
             self.op_selfreplace(op[1])
         elif name == 'deldrop':
-            self.op_deldrop(op[1])
+            self.op_deldrop(op[1], op[2] if len(op) > 2 else 0)
         elif name == 'clone':
             if self.slots:
                 src = self.slots[op[1] % len(self.slots)]
@@ -443,20 +443,28 @@ class Run(object):
         if got != -11:
             raise Violation('C29.2', 'a callback that raised returned %d, its own error value is -11' % got)
 
-    def op_deldrop(self, n):
+    def op_deldrop(self, n, collect=0):
         """a callback whose Python function owns an object with __del__ that creates callbacks: they are
-        created in the middle of the deallocation of the first one"""
+        created in the middle of the deallocation of the first one.  With `collect`, that __del__ also runs
+        a garbage collection (before and/or after creating them): a collection in the middle of the
+        deallocation of a callback"""
         run = self
 
         class OnDel(object):
             def __del__(self):
                 try:
+                    if collect & 1:
+                        gc.collect()
+                        run.out.fault('collection_during_a_callback_deallocation')
                     for i in range(n):
                         ne = run.create(SIGNAMES[i % len(SIGNAMES)], 'inline')
                         if ne is not None:
                             run.slots.append(ne)
                             run.fresh.append(ne)
                     run.out.fault('callbacks_created_during_a_callback_deallocation')
+                    if collect & 2:
+                        gc.collect()
+                        run.out.fault('collection_during_a_callback_deallocation')
                 except Violation as v:
                     run.gv = v
 
@@ -578,7 +586,7 @@ class C29(core.Check):
             elif name in ('drop', 'clone', 'badarg', 'selfreplace'):
                 ops.append([name, rng.below(100000)])
             elif name == 'deldrop':
-                ops.append(['deldrop', rng.randint(1, 4)])
+                ops.append(['deldrop', rng.randint(0, 4), rng.below(4)])
             elif name == 'bulk':
                 n = rng.choice([500, 1500, 3000, 5000]) if big else rng.choice([10, 80, 200])
                 ops.append(['bulk', n, rng.choice(SIGNAMES), rng.choice(['module', 'inline'])])
